@@ -53,7 +53,18 @@ pub fn drive(args: &[String]) {
 /// plant one card the compiler must reject; returns (error kind, [function position, path])
 fn plant_compile_error(p: &mut P, rng: &mut Rng) -> (String, usize, Vec<u64>) {
     // `sub`: the failing card is this child of the planted statement
-    let (kind, bad, sub): (&str, C, Option<u64>) = match rng.below(4) {
+    let (kind, bad, sub): (&str, C, Option<u64>) = match rng.below(6) {
+        // a for-each whose loop variable has the empty name: the for-each card itself is at fault, not its body
+        4 => {
+            let mut names = ["ei", "ek", "ev"];
+            names[rng.below(3)] = "<empty>";
+            ("EmptyVariable", foreach(names[0], names[1], names[2], card("CreateTable", vec![]), block(vec![setg("g0", int(1))])), None)
+        }
+        5 => {
+            let mut names = ["", "", ""];
+            names[rng.below(3)] = "<empty>";
+            ("EmptyVariable", foreach(names[0], names[1], names[2], read("no_such_table_needed"), block(vec![])), None)
+        }
         0 => ("InvalidJump", call("no_such_function", vec![]), None),
         1 => ("InvalidJump", setg("g0", named("Function", "no.such.fn", vec![])), Some(0)),
         2 => ("EmptyVariable", setv("", int(1)), None),
